@@ -117,5 +117,8 @@ func ref(args []string) {
 			out.ErrTxt = err.Error()
 		}
 	}()
+	// the value goes on a marked line of its own: whatever library code printed to the real stdout on the way
+	// (it is not part of what the library returns) must not be mistaken for it
+	realos.Stdout.WriteString("\n@@SIMREF@@ ")
 	json.NewEncoder(realos.Stdout).Encode(out)
 }
